@@ -224,6 +224,47 @@ def c17_race_probe(res, workdir, rseed, rargs, opts):
     return True
 
 
+def c19_confirm(res, workdir):
+    """The expectation tool runs in real time (a subprocess, a 400 ms step timeout, 16 sessions in
+    parallel): on a loaded machine a session can time out although every expected line was written.
+    A disagreement of that direction only — the model says pass, the tool said fail — is run again,
+    alone, twice; it is kept if the tool fails again, otherwise it is recorded in the evidence as not
+    reproduced.  (A pass where the model says fail is never re-run.)"""
+    import json, os
+    from checklib_main import run_harness, run_driver, read_pairs
+    keep, rerun = [], []
+    for inp, ver in res.diffs:
+        if inp.get("op") == "expect" and inp.get("go") == "fail" and ver.get("model") == "pass":
+            rerun.append((inp, ver))
+        else:
+            keep.append((inp, ver))
+    for n, (inp, ver) in enumerate(rerun[:8]):
+        case = {k: v for k, v in inp.items() if k not in ("go", "probe")}
+        again = False
+        for attempt in range(2):
+            tag = "confirm19-%d-%d" % (n, attempt)
+            cf = os.path.join(workdir, tag + ".case.jsonl")
+            with open(cf, "w") as f:
+                f.write(json.dumps(case) + "\n")
+            lines, _, okh = run_harness("expect", ["-n", "0", "-corpus", cf], workdir, tag, res.log, timeout=300)
+            outp = run_driver(lines, res.log) if okh else None
+            if outp is None:
+                again = True
+                break
+            for i2, v2 in read_pairs(lines, outp):
+                if not v2.get("corr", True):
+                    again = True
+            if again:
+                break
+        if again:
+            keep.append((inp, ver))
+        else:
+            res.extra.setdefault("coverage", {}).setdefault("not_reproduced_when_run_alone", []).append(
+                {"case": case, "tool": "fail", "model": "pass"})
+    keep.extend(rerun[8:])
+    res.diffs = keep
+
+
 def c17_confirm(res, workdir):
     """`noMissedFire` is the one oracle with a deadline in it ("due for well over 60 ms and not fired"):
     a stall of the machine (this sandbox's clock and scheduler do stall) can produce it on code that
@@ -516,6 +557,7 @@ PROPS = {
         },
         "analyze": analyze_generic,
         "oracles": ["verdictSound", "noFalsePass"],
+        "confirm": c19_confirm,
         "probes": [],
         "rule": ("sessions of 1-3 steps with 0-3 expected or inverted outputs each (patterns incl. variables, property variables and "
                  "array variables; ECMAScript guards that accept, reject by predicate or always reject) against scripted line streams "
